@@ -396,7 +396,8 @@ def literal_vs_regex(tier, seed):
 
 
 # ----------------------------------------------------------------------------- C18
-NAMED = {'priority': 'priority = 7', 'ignore': 'ignore(case)', 'allow_greedy': 'allow_greedy = true', 'callback': 'callback = cb'}
+NAMED = {'priority': 'priority = 7', 'ignore': 'ignore(case)', 'allow_greedy': 'allow_greedy = true', 'callback': 'callback = cb',
+         'callback_lt': 'callback = |lex| lex.slice().len() < 4', 'callback_shift': 'callback = |lex| 1u8 << 2 > 3'}
 
 
 def c18_cases():
@@ -419,6 +420,13 @@ def c18_cases():
                     head = lit + (', cb' if with_cb is True else '')
                     srcs = [enum([], f'#[{kind}({head}, {", ".join(NAMED[n] for n in perm)})]') for perm in perms]
                     cases.append((f'{kind}-{"cb" if with_cb is True else ("ncb" if with_cb else "nocb")}-{"+".join(subset)}', srcs))
+    # values containing bare comparison / shift operators (must not swallow the following arguments)
+    for kind, lit in (('regex', '"[a-c]+x"'), ('token', '"ab"')):
+        for cbn in ('callback_lt', 'callback_shift'):
+            for subset in [(cbn, 'priority'), (cbn, 'priority', 'ignore')]:
+                perms = list(itertools.permutations(subset))
+                cases.append((f'{kind}-{cbn}-{"+".join(subset[1:])}',
+                              [enum([], f'#[{kind}({lit}, {", ".join(NAMED[n] for n in perm)})]') for perm in perms]))
     # skip(...) arguments
     for subset in [('priority', 'ignore'), ('priority', 'allow_greedy'), ('priority', 'ignore', 'allow_greedy'), ('callback', 'priority')]:
         perms = list(itertools.permutations(subset))
